@@ -517,6 +517,27 @@ func (c *Ctx) BvBin(op Op, a, b *Term) *Term {
 		if a == b && w <= 64 {
 			return c.Const(a.S, 0)
 		}
+		// (p + q) - p = q
+		if a.Op == OBvAdd {
+			if a.Args[0] == b {
+				return a.Args[1]
+			}
+			if a.Args[1] == b {
+				return a.Args[0]
+			}
+		}
+	case OBvSDiv, OBvSRem:
+		// both operands provably non-negative: signed == unsigned
+		if w <= 64 && b.IsConst() && b.Val != 0 {
+			_, ah := c.URange(a)
+			half := uint64(1) << uint(w-1)
+			if ah < half && b.Val < half {
+				if op == OBvSDiv {
+					return c.BvBin(OBvUDiv, a, b)
+				}
+				return c.BvBin(OBvURem, a, b)
+			}
+		}
 	case OBvShl, OBvLShr, OBvAShr:
 		if b.IsConst() && b.Val == 0 {
 			return a
@@ -566,6 +587,31 @@ func (c *Ctx) BvBin(op Op, a, b *Term) *Term {
 	case OBvUDiv, OBvURem:
 		if op == OBvUDiv && b.IsConst() && b.Val == 1 {
 			return a
+		}
+		// (x*k + y) / k = x and (x*k + y) % k = y when y < k and nothing overflows
+		if b.IsConst() && b.Val > 1 && a.Op == OBvAdd && w <= 64 {
+			for i := 0; i < 2; i++ {
+				m, y := a.Args[i], a.Args[1-i]
+				if m.Op != OBvMul {
+					continue
+				}
+				for j := 0; j < 2; j++ {
+					k, x := m.Args[j], m.Args[1-j]
+					if !k.IsConst() || k.Val != b.Val {
+						continue
+					}
+					_, xh := c.URange(x)
+					_, yh := c.URange(y)
+					h, l := bits.Mul64(xh, k.Val)
+					sum, carry := bits.Add64(l, yh, 0)
+					if h == 0 && carry == 0 && sum <= mask(w) && yh < k.Val {
+						if op == OBvUDiv {
+							return x
+						}
+						return y
+					}
+				}
+			}
 		}
 		// (x * k) / k = x and (x * k) % k = 0 when the product cannot overflow
 		if b.IsConst() && b.Val > 1 && a.Op == OBvMul && w <= 64 {
